@@ -151,8 +151,16 @@ ShutdownVerdict(r) ==
     ELSE FirstClient(r, 1)
 
 -----------------------------------------------------------------------------------------
+\* deep pipelining of large values: every reply byte-exact (counted by the driver's splitter)
+KvBulkVerdict(r) ==
+    IF Has(r, "abort") THEN V("C06", "the server process died or hung")
+    ELSE IF r.exact # r.depth
+           THEN V("C06", "pipelined GETs of a large value are not answered byte for byte under back-pressure")
+    ELSE OK
+
 Verdict(r) ==
     CASE r.ev = "kv" -> KvVerdict(r)
+      [] r.ev = "kvbulk" -> KvBulkVerdict(r)
       [] r.ev = "hostile" -> HostileVerdict(r)
       [] r.ev = "limit" -> LimitVerdict(r)
       [] r.ev = "shutdown" -> ShutdownVerdict(r)
